@@ -201,8 +201,10 @@ impl<'a> GeneratorState<'a> {
                         self.carry_flag_ok = false;
                         Ok(ExprType::Y)
                     }
-                    ExprType::Nothing => unreachable!(),
-                    ExprType::Label(_) => unreachable!(),
+                    ExprType::Nothing => Err(self
+                        .compiler_state
+                        .syntax_error("Can't assign void to variable", pos)),
+                    ExprType::Label(_) => Err(self.compiler_state.syntax_error("Syntax error", pos)),
                 }
             }
             _ => {
@@ -406,6 +408,11 @@ impl<'a> GeneratorState<'a> {
                                 signed = *s;
                                 acc_in_use = false;
                                 self.acc_in_use = false;
+                            }
+                            ExprType::Nothing => {
+                                return Err(self
+                                    .compiler_state
+                                    .syntax_error("Can't assign void to variable", pos))
                             }
                             _ => unreachable!(),
                         };
